@@ -730,37 +730,46 @@ theorem genStep_eq (bk : Book N) (fuel : Nat) (s : GState N) (d : N) (rest : Lis
     genStep bk fuel s = (bk.needed d).foldl (edgeStep bk fuel d) { s with todos := rest } := by
   simp only [genStep, h]; rfl
 
-theorem genStep_inv (bk : Book N) (fuel : Nat) (s : GState N) (h : InvX bk (fun _ => False) s) :
-    InvX bk (fun _ => False) (genStep bk fuel s) := by
+/-- the state in the middle of one `while` iteration: `d` popped, a prefix `ps` of its needed addresses connected.
+    Everything but `d` keeps the invariant (this is the state a pass leaves behind when building the next precedent
+    of `d` raises: the code does not clear `graph_todos`). -/
+theorem abort_state_inv (bk : Book N) (X : N → Prop) (fuel : Nat) (s : GState N) (d : N) (rest ps : List N)
+    (h : InvX bk X s) (ht : s.todos = d :: rest) :
+    InvX bk (fun i => X i ∨ i = d) (ps.foldl (edgeStep bk fuel d) { s with todos := rest }) := by
+  have h0 : InvX bk (fun i => X i ∨ i = d) { s with todos := rest } := by
+    intro i hi hp
+    rcases h i hi hp with h1 | h1 | h1
+    · exact Or.inl (Or.inl h1)
+    · rw [ht] at h1
+      rcases List.mem_cons.mp h1 with rfl | h1
+      · exact Or.inl (Or.inr rfl)
+      · exact Or.inr (Or.inl h1)
+    · exact Or.inr (Or.inr h1)
+  exact foldl_pres (InvX bk (fun i => X i ∨ i = d)) (edgeStep bk fuel d)
+    (fun st p hst => edgeStep_inv bk _ fuel d st p hst) ps _ h0
+
+theorem genStep_inv (bk : Book N) (X : N → Prop) (fuel : Nat) (s : GState N) (h : InvX bk X s) :
+    InvX bk X (genStep bk fuel s) := by
   cases ht : s.todos with
   | nil => simpa [genStep, ht] using h
   | cons d rest =>
     rw [genStep_eq bk fuel s d rest ht]
-    have h0 : InvX bk (· = d) { s with todos := rest } := by
-      intro i hi hp
-      rcases h i hi hp with h1 | h1 | h1
-      · exact absurd h1 id
-      · rw [ht] at h1
-        rcases List.mem_cons.mp h1 with rfl | h1
-        · exact Or.inl rfl
-        · exact Or.inr (Or.inl h1)
-      · exact Or.inr (Or.inr h1)
-    have h1 := foldl_pres (InvX bk (· = d)) (edgeStep bk fuel d)
-      (fun st p hst => edgeStep_inv bk _ fuel d st p hst) (bk.needed d) _ h0
+    have h1 := abort_state_inv bk X fuel s d rest (bk.needed d) h ht
     intro i hi hp
-    rcases h1 i hi hp with rfl | h2 | h2
+    rcases h1 i hi hp with (hx | rfl) | h2 | h2
+    · exact Or.inl hx
     · exact Or.inr (Or.inr fun x hx => fold_edges bk fuel i (bk.needed i) _ x hx)
     · exact Or.inr (Or.inl h2)
     · exact Or.inr (Or.inr h2)
 
-theorem genLoop_inv (bk : Book N) (fuel : Nat) :
-    ∀ n (s : GState N), InvX bk (fun _ => False) s → InvX bk (fun _ => False) (genLoop bk fuel n s)
+theorem genLoop_inv (bk : Book N) (X : N → Prop) (fuel : Nat) :
+    ∀ n (s : GState N), InvX bk X s → InvX bk X (genLoop bk fuel n s)
   | 0, _, h => h
   | n + 1, s, h => by
     simp only [genLoop]
     split
     · exact h
-    · exact genLoop_inv bk fuel n _ (genStep_inv bk fuel s h)
+    · exact genLoop_inv bk X fuel n _ (genStep_inv bk X fuel s h)
 
 theorem genGraph_inv (bk : Book N) (fuel n : Nat) (seed : N) : InvX bk (fun _ => False) (genGraph bk fuel n seed) := by
   apply genLoop_inv
